@@ -125,7 +125,7 @@ def run_rule(rng, thorough, out):
     res = {}
     from bempp_cl.api.integration import duffy_galerkin
     full = (1, 2, 3, 4) if thorough else (1, 2, 3)
-    structural = (4, 5) if thorough else (4,)
+    structural = (4,)
     for order in sorted(set(full) | set(structural)):
         try:
             arr = Rule(g, order, ones, ones).get_arrays()
@@ -225,14 +225,14 @@ def search_meshes(rng, thorough):
     names = ["tetrahedron", "octahedron", "cube12", "dent_equator", "two_tetrahedra"]
     gens = dict(M.CLOSED)
     gens["two_tetrahedra"] = lambda: M.two_components(M.tetrahedron, M.tetrahedron, shift=(2.5, 0.3, -0.4))
+    base_names = list(names)
     if thorough:
-        names += ["dented", "lshape", "two_components", "sphere1", "torus6x4"]
+        # (a 48-element torus at singular order 14 alone costs > 10 min per operator: left out)
+        names += ["dented", "lshape", "two_components", "sphere1"]
         gens["sphere1"] = lambda: M.sphere(1)
-        gens["torus6x4"] = lambda: M.torus(6, 4)
-        orders = orders + [(14, 14)]
     out = []
     for name in names:
-        for rep in range(2 if thorough else 1):
+        for rep in range(2 if (thorough and name in base_names) else 1):
             v, e = gens[name]()
             tag = name
             if rep or name in ("octahedron", "dent_equator", "two_tetrahedra"):
